@@ -24,7 +24,7 @@ ASSUMPTIONS = [
 
 
 def floors(tier):
-    return {"states_checked": 3000, "pairs_matched_bit_exact": 8000, "chains_skipping_an_iterate": 60, "restart_states_checked": 150,
+    return {"states_checked": 3000, "pairs_matched_bit_exact": 8000, "chains_skipping_an_iterate": 60, "restart_states_checked": 150, "chains_continued_with_a_memory_of_one_or_two_pairs": 100,
             "inherited_pairs_checked": 300, "operators_spd_checked": 2500, "diag_operators": 800, "diag_operators_with_zero_columns": 200, "diag_operators_with_columns_of_order_1e-170_and_below": 150, "diag_operators_on_a_length_scale_of_1e-165_and_below": 100, "diag_requested_again_after_in_place_edit": 300, "rejected_pair_then_failed_search_then_progress": 20, "second_continuations_from_one_checkpoint_object": 40, "switch_states_checked": 300, "switch_runs_traced_through_a_logger": 60, "diagonals_held_by_the_caller_re-read_after_later_extractions": 3000, "__nontrivial__": 150}
 
 
@@ -65,6 +65,14 @@ def cases(tier, seed):
         cfg = {"jac": "callable", "maxcor": int(rng.integers(1, 7)), "maxls": int(gen.pick(rng, [1, 1, 2])), "eps_SY": float(gen.pick(rng, [0.05, 0.1, 0.3, 0.5])),
                "maxiter": int(gen.pick(rng, [20, 40])), "maxfun": 15000, "ftol": 0.0, "gtol": 1e-9, "cb": "never"}
         yield {"kind": "run", "problem": ps, "cfg": cfg, "chain": []}
+    for i in range(300 if tier == "quick" else 8000):
+        # continuations with a much smaller memory than the checkpoint holds, under a demanding curvature test (the pair formed with the
+        # checkpoint's point is often rejected): never more than the new maxcor pairs, whatever was restored
+        ps = gen.rand_spec(rng, ("rastrigin", "ackley", "griewank", "styblinski_tang", "rosenbrock", "oscillating", "qp_quartic"), nmax=6, nmin=2)
+        cfg = {"jac": "callable", "maxcor": int(rng.integers(5, 10)), "maxls": int(gen.pick(rng, [3, 20])), "eps_SY": float(gen.pick(rng, [0.1, 0.3, 0.5])),
+               "maxiter": int(rng.integers(8, 16)), "maxfun": 15000, "ftol": 0.0, "gtol": 1e-9, "cb": "never", "restart_maxcor": int(rng.integers(1, 3))}
+        yield {"kind": "run", "problem": ps, "cfg": cfg, "chain": [int(rng.integers(0, 4)), int(rng.integers(1, 4))], "small_restart_memory": True,
+               "restart_eps_SY": float(gen.pick(rng, [0.9, 1.0, 3.0])) if i % 2 == 0 else None}
     nsw = 500 if tier == "quick" else 8000
     for i in range(nsw):
         ps = gen.rand_spec(rng, ("qp", "qp_quartic"), nmax=7, nmin=2, boxes=("none", "mixed", "boxed"), starts=("interior", "face"), condmax=1e3)
@@ -136,6 +144,12 @@ def judge_state(out, snap, X, G, maxcor, inherited, where, tags):
         j = int(np.argmin(curv))
         out.violate("pair_without_curvature", f"{where}: pair {j} has s.y = {curv[j]!r}", **tags)
         return None
+    if inherited is not None and inherited.get("relaxed"):
+        # continuation under a stricter curvature threshold than the checkpoint was built with: the newest restored pair may be rejected
+        # again, after which the history does not end at the checkpoint's x (the run keeps an older base point, see the open finding about
+        # skipped updates): only the count and the curvature of the pairs are judged on this leg
+        out.count("states_of_continuations_under_a_stricter_threshold_checked")
+        return dict(skipped=False)
     start, idx = find_chain(sk, yk, X, G)
     out.count("pairs_matched_bit_exact", m - start)
     skipped = any(b - a > 1 for a, b in zip(idx[:-1], idx[1:]))
@@ -180,6 +194,8 @@ def run_case(spec, out, keys):
     P = gen.make_problem(spec["problem"])
     cfg = dict(spec["cfg"])
     rmaxcor = cfg.pop("restart_maxcor", None)
+    if spec.get("small_restart_memory"):
+        out.count("chains_continued_with_a_memory_of_one_or_two_pairs")
     s = 1.0
     ck = None
     x0 = None
@@ -190,6 +206,8 @@ def run_case(spec, out, keys):
         c = dict(cfg, maxiter=maxiter)
         if step > 0 and rmaxcor is not None:
             c["maxcor"] = rmaxcor
+        if step > 0 and spec.get("restart_eps_SY") is not None:
+            c["eps_SY"] = spec["restart_eps_SY"]  # ... and a stricter curvature threshold than the checkpoint was built with
         tr = probes.run_min(P, c, checkpoint=ck, x0=x0)
         if tr.exc is not None:
             out.count("runs_raised")
@@ -243,7 +261,7 @@ def run_case(spec, out, keys):
             ck = tr.result
             x0 = np.array(ck.x, dtype=float, copy=True)
             inherited = dict(sk=np.array(ck.hess_inv.sk, copy=True), yk=np.array(ck.hess_inv.yk, copy=True),
-                             x=np.array(ck.x, copy=True), jac=np.array(ck.jac, copy=True))
+                             x=np.array(ck.x, copy=True), jac=np.array(ck.jac, copy=True), relaxed=spec.get("restart_eps_SY") is not None)
             maxiter = int(ck.nit) + spec["chain"][step]
     out.sample = dict(spec=spec, visited=len(X))
 
